@@ -164,3 +164,26 @@ func Repertoire(cs string) []Char {
 	cache[cs] = out
 	return out
 }
+
+// EncodeLoose encodes r in cs with a fresh encoder without demanding that the
+// bytes decode back to r: this is "the character set's encoding of the rune".
+func EncodeLoose(cs string, r rune) ([]byte, bool) {
+	if cs == "UTF-8" || cs == "US-ASCII" {
+		return Encode(cs, r)
+	}
+	enc := tcell.GetEncoding(cs)
+	if enc == nil || !utf8.ValidRune(r) {
+		return nil, false
+	}
+	src := make([]byte, 4)
+	n := utf8.EncodeRune(src, r)
+	dst := make([]byte, 16)
+	nd, ns, err := enc.NewEncoder().Transform(dst, src[:n], true)
+	if err != nil || ns != n || nd == 0 {
+		return nil, false
+	}
+	if dst[0] == 0x1a && r != 0x1a {
+		return nil, false
+	}
+	return append([]byte{}, dst[:nd]...), true
+}
